@@ -97,6 +97,9 @@ def run_harness(h: Harness) -> HarnessResult:
         res.solver_calls = stats.solver_calls
     except Unsupported as e:
         res.undecided = str(e)
+    except AssertionError as e:
+        # a sidecar model met a code shape it does not cover ("... is not modelled"): undecided, never a verdict
+        res.undecided = f"the sidecar model does not cover this code shape: {e}"
     except RecursionError as e:
         res.undecided = f"recursion limit: {e}"
     except Exception as e:  # engine error
